@@ -33,6 +33,9 @@ CONSTANTS
   GarbageLens,     \* garbage lengths either side may choose
   DecoyCounts,     \* number of decoy packets sent during the handshake
   Hellos,          \* subset of {"v2","v1","v1wrong"}: what the initiator is
+  Encodings,       \* subset of {"canon","uplusp"}: how keys are encoded on the wire;
+                   \* "uplusp" = the u half of an ElligatorSwift key is sent as u + p
+                   \* (non-canonical, decodes to the same point; see EllswiftBytes.tla)
   PrefixMatches,   \* how many leading bytes of a v2 key equal the v1 prefix (0..15)
   Sizes,           \* content lengths of application packets
   IgnoreOpts,      \* subset of BOOLEAN
@@ -81,7 +84,7 @@ DecoyLen(i) == IF i = 1 THEN 0 ELSE 8
 OwnAad(e) == IF Garb(e) = 0 THEN <<>> ELSE << <<"garb", e, Garb(e), "none">> >>
 
 KeyU(e, val, pm) ==
-  [k |-> "key", seq |-> 0, len |-> 64, tam |-> "none", id |-> [val |-> val, pm |-> pm]]
+  [k |-> "key", seq |-> 0, len |-> 64, tam |-> "none", id |-> [val |-> val, pm |-> pm, enc |-> sc.enc]]
 GarbU(e) ==
   [k |-> "garb", seq |-> 1, len |-> Garb(e), tam |-> "none", id |-> [from |-> e]]
 TermU(e, s, seq) ==
@@ -118,11 +121,12 @@ NoOut == [kind |-> "none"]
 \* the scenarios; a model may override this with an explicit set of records
 \* (mf = the number of channel faults allowed in this scenario)
 ScenarioSpace == [gI : GarbageLens, gR : GarbageLens, dI : DecoyCounts, dR : DecoyCounts,
-                  hello : Hellos, pm : PrefixMatches, mf : {MaxFaults}]
+                  hello : Hellos, pm : PrefixMatches, mf : {MaxFaults}, enc : Encodings]
 
 Init ==
   /\ sc \in ScenarioSpace
   /\ (sc.hello # "v2" => sc.pm = 0 /\ sc.gI = 0 /\ sc.dI = 0)
+  /\ (sc.enc # "canon" => sc.pm = 0)  \* u + p starts with 0xff: never a v1 prefix
   /\ st = [e \in E |-> IF e = "R" THEN [InitSt EXCEPT !.ph = "wantkey"] ELSE InitSt]
   /\ wire = [e \in E |-> <<>>]
   /\ closed = [e \in E |-> FALSE]
